@@ -349,7 +349,8 @@ fn builder_door(case: &Value, native: bool) -> Value {
 
 pub fn doors_event(case: &Value) -> Value {
     let mut ev = json!({"id": case["id"], "sense": case["sense"], "obj": case["obj"], "cons": case["cons"], "dom": case["dom"],
-                        "plan": case["plan"], "text": case["text"], "ktext": case["ktext"], "probes": case.get("probes").cloned().unwrap_or(json!([]))});
+                        "plan": case["plan"], "text": case["text"], "ktext": case["ktext"], "probes": case.get("probes").cloned().unwrap_or(json!([])),
+                        "illtyped": case.get("illtyped").and_then(|v| v.as_bool()).unwrap_or(false)});
     // ---- B / N: builder (all-Expr operands; native overloads + macros) ----------
     ev["B"] = builder_door(case, false);
     ev["N"] = builder_door(case, true);
